@@ -161,6 +161,7 @@ Definition encodable (f : fec) (k parity : N) : bool :=
   match f with
   | RS28 | RS28US => (0 <? parity) && (k + parity <=? 256)
   | Raptor => negb ((k =? 2) || (k =? 3))
+  | NoCode => k <=? 65536          (* 16-bit ESI of the No-Code FEC Payload ID (D39) *)
   | _ => true
   end.
 
